@@ -199,81 +199,59 @@ example : ser { exTx with data := none } ≠ ser { exTx with data := some [] } :
 example : escStr "a<\"\n".toList = "\"a\\u003c\\\"\\n\"".toList := by decide
 example : base64 [1, 2, 3, 4, 255] = "AQIDBP8=".toList := by decide
 
-/-! ## 3. The key handlers: what "verifies under that address's key" means in the code
+/-! ## 3. The key handlers: every accepted signature passed a cryptographic verification
 
-  FULL STATEMENT (false of the code as written, suspect S24):
-
-    theorem authentic (p : Prims M S) data signers sigs :
-        validateBasicK p data signers sigs = .ok →
-        ∀ i, p.sigVerify sigs[i].signer data sigs[i].signed = true
-
-  i.e. every accepted signature passed a cryptographic verification.  `PublicKeyBTCEC.VerifyBytes`
-  returns true and `PublicKeyBTCEC.Address()` returns nil, so for a required signer with the empty
-  address any parseable BTCEC key with arbitrary "signature" bytes is accepted
-  (`btcec_accepts_unsigned`, concrete witness `btcec_counterexample`; the harness replays it on
-  the implementation: an EXPIRE_VOTES with `validatorAddress: ""` is admitted and executed).
-  Proved instead: the statement under the hypothesis that no required signer is the empty
-  address (`authentic_partial`), and that BTCEC keys are accepted for the empty address only. -/
+  Full strength since the fix "BTCEC public keys verify signatures and have an address"
+  (/repo d272d58): before it `PublicKeyBTCEC.VerifyBytes` returned true and `Address()` nil, the
+  statement held only under "no required signer is the empty address" (`authentic_partial`) and
+  an EXPIRE_VOTES naming the empty address was executed with any bytes as signature.  The former
+  counterexample is kept below as a regression example (refused), and as scenario
+  corpus/C04/kf1_btcec_empty_signer.ops on the implementation. -/
 
 section Keys
 variable {M S : Type}
 
-/-- under "no required signer is the empty address": accepted iff every signature is by a
-    non-BTCEC key with the required address and passed the cryptographic verification -/
-theorem authentic_partial (p : Prims M S) (data : M) (signers : List Bytes)
-    (sigs : List (Sig PubKey S)) (hne : ∀ a ∈ signers, a ≠ []) :
+/-- accepted iff every required signer has, at its position, a signature by a key that has a
+    handler (known algorithm, right size / parseable point) whose address is the signer, and the
+    signature passed the LIBRARY verification of that algorithm — for all four algorithms -/
+theorem authentic (p : Prims M S) (data : M) (signers : List Bytes) (sigs : List (Sig PubKey S)) :
     validateBasicK p data signers sigs = .ok ↔
       sigs.length = signers.length ∧
       ∀ i (hi : i < signers.length) (hj : i < sigs.length),
-        sigs[i].signer.alg ≠ .btcec ∧ keyAddr p sigs[i].signer = some signers[i] ∧
+        keyAddr p sigs[i].signer = some signers[i] ∧
         p.sigVerify sigs[i].signer data sigs[i].signed = true := by
   unfold validateBasicK
-  rw [validateBasic_iff]
-  constructor
-  · rintro ⟨hl, hall⟩
-    refine ⟨hl, fun i hi hj => ?_⟩
-    obtain ⟨ha, hv⟩ := hall i hi hj
-    have hb : sigs[i].signer.alg ≠ .btcec := by
-      intro hb
-      have : keyAddr p sigs[i].signer = some [] ∨ keyAddr p sigs[i].signer = none := by
-        unfold keyAddr; rw [hb]; simp only; split <;> simp
-      rcases this with h | h
-      · rw [h] at ha
-        exact hne signers[i] (List.getElem_mem hi) (Option.some.inj ha).symm
-      · rw [h] at ha; cases ha
-    refine ⟨hb, ha, ?_⟩
-    unfold keyVerify at hv
-    split at hv
-    · next h => exact absurd h hb
-    · exact hv
-  · rintro ⟨hl, hall⟩
-    refine ⟨hl, fun i hi hj => ?_⟩
-    obtain ⟨hb, ha, hv⟩ := hall i hi hj
-    refine ⟨ha, ?_⟩
-    unfold keyVerify
-    split
-    · rfl
-    · exact hv
+  exact validateBasic_iff (keyVerify p) (keyAddr p) data signers sigs
 
-/-- S24, in general: a required signer with the empty address is satisfied by ANY parseable
-    BTCEC public key with ANY signature bytes over ANY data -/
-theorem btcec_accepts_unsigned (p : Prims M S) (data : M) (pk : PubKey) (junk : S)
-    (halg : pk.alg = .btcec) (hparse : p.parses pk = true) :
-    validateBasicK p data [[]] [⟨pk, junk⟩] = .ok := by
-  simp [validateBasicK, validateBasic, vbLoop, keyAddr, keyVerify, halg, hparse]
+/-- no algorithm tag buys acceptance without verification -/
+theorem no_acceptance_without_verification (p : Prims M S) (data : M) (signers : List Bytes)
+    (sigs : List (Sig PubKey S)) (i : Nat) (hj : i < sigs.length)
+    (h : p.sigVerify sigs[i].signer data sigs[i].signed = false) :
+    validateBasicK p data signers sigs ≠ .ok :=
+  unverified_signature_rejected (keyVerify p) (keyAddr p) data signers sigs i hj h
 
-/-- a BTCEC key is never accepted for a non-empty required signer -/
-theorem btcec_only_for_empty_signer (p : Prims M S) (data : M) (signers : List Bytes)
-    (sigs : List (Sig PubKey S)) (h : validateBasicK p data signers sigs = .ok)
-    (i : Nat) (hi : i < signers.length) (hj : i < sigs.length)
-    (hb : sigs[i].signer.alg = .btcec) : signers[i] = [] := by
-  have ha := (((validateBasic_iff _ _ _ _ _).mp h).2 i hi hj).1
-  unfold keyAddr at ha
-  rw [hb] at ha
-  simp only at ha
-  split at ha
-  · exact (Option.some.inj ha).symm
-  · cases ha
+/-- a key with a handler is of a known algorithm and well formed for it -/
+theorem handler_needs_wellformed_key (p : Prims M S) (pk : PubKey) (a : Bytes)
+    (h : keyAddr p pk = some a) :
+    a = p.hashAddr pk ∧
+    ((pk.alg = .ed25519 ∧ pk.data.length = ED25519_PUB_SIZE) ∨
+     (pk.alg = .secp256k1 ∧ pk.data.length = SECP256K1_PUB_SIZE) ∨
+     ((pk.alg = .ethsecp ∨ pk.alg = .btcec) ∧ p.parses pk = true)) := by
+  unfold keyAddr at h
+  split at h
+  · next ha => split at h
+               · next hs => exact ⟨(Option.some.inj h).symm, .inl ⟨ha, hs⟩⟩
+               · cases h
+  · next ha => split at h
+               · next hs => exact ⟨(Option.some.inj h).symm, .inr (.inl ⟨ha, hs⟩)⟩
+               · cases h
+  · next ha => split at h
+               · next hs => exact ⟨(Option.some.inj h).symm, .inr (.inr ⟨.inl ha, hs⟩)⟩
+               · cases h
+  · next ha => split at h
+               · next hs => exact ⟨(Option.some.inj h).symm, .inr (.inr ⟨.inr ha, hs⟩)⟩
+               · cases h
+  · cases h
 
 /-- keys of an unknown algorithm, or of the wrong size, are rejected as ErrInvalidPubkey -/
 theorem unusable_key_rejected (p : Prims M S) (data : M) (s : Bytes) (ss : List Bytes)
@@ -284,17 +262,18 @@ theorem unusable_key_rejected (p : Prims M S) (data : M) (s : Bytes) (ss : List 
 
 end Keys
 
-/-- primitives that accept nothing: every real verification fails, parsing succeeds -/
+/-- primitives that accept nothing: every verification fails, parsing succeeds, address = key bytes -/
 def exPrims : Prims Nat Nat :=
   { parses := fun _ => true, hashAddr := fun pk => pk.data, sigVerify := fun _ _ _ => false }
+/-- primitives that accept signature `s` for key `pk` over `m` iff `s = m + pk.data.length` -/
+def exPrimsOK : Prims Nat Nat :=
+  { parses := fun _ => true, hashAddr := fun pk => pk.data, sigVerify := fun pk m s => s == m + pk.data.length }
 
-/-- the proved counterexample to the full statement (replayed on the implementation by the
-    `sig` engine, mutant class `btcec-empty-signer`) -/
-theorem btcec_counterexample :
-    validateBasicK exPrims 7 [[]] [⟨⟨.btcec, [2, 1]⟩, 0⟩] = .ok ∧
-    exPrims.sigVerify ⟨.btcec, [2, 1]⟩ 7 0 = false := by decide
-
-example : validateBasicK exPrims 7 [[9]] [⟨⟨.btcec, [2, 1]⟩, 0⟩] = .unmatch := by decide
+/-- regression (former `btcec_counterexample`): the empty address with a BTCEC key and junk -/
+example : validateBasicK exPrims 7 [[]] [⟨⟨.btcec, [2, 1]⟩, 0⟩] = .unmatch := by decide
+example : validateBasicK exPrims 7 [[2, 1]] [⟨⟨.btcec, [2, 1]⟩, 0⟩] = .badSig := by decide
+example : validateBasicK exPrimsOK 7 [[2, 1]] [⟨⟨.btcec, [2, 1]⟩, 9⟩] = .ok := by decide
+example : validateBasicK exPrimsOK 7 [[2, 1]] [⟨⟨.btcec, [2, 1]⟩, 8⟩] = .badSig := by decide
 example : validateBasicK exPrims 7 [[9]] [⟨⟨.ed25519, [9]⟩, 0⟩] = .badKey := by decide
 
 /-! ## 4. Admission: CheckTx / DeliverTx run nothing of a transaction whose signatures do not validate -/
@@ -411,64 +390,34 @@ theorem sigAdmit_rejectAll (tx : SignedTx PK S) :
 
 end Admit
 
-/-! ## 5. OLVM transactions: EIP-155 sender recovery, memo = nonce
+/-! ## 5. OLVM transactions: EIP-155 sender recovery and a canonical envelope
 
-  FULL STATEMENT (false of the code as written): "changing the payload after signing is rejected".
   The Ethereum signature covers (nonce, to, value, data, chain id) of the payload and (gas, price)
-  of the fee; `from`, the memo and the fee currency are pinned by equality checks; the payload
-  fields `type` and `accessList` are covered by nothing, and `accessList` is handed to the EVM
-  (`runOLVM` → `vm.NewEVMTransaction`, where it enters the intrinsic gas).
-  The memo is pinned only up to leading zeros (`strconv.ParseUint`), the public key named in the
-  signature entry is never read, and a signature of the wrong length (or a payload without chain
-  id) is not rejected at all: the handler panics and `handlePanic` closes the application.
-  Proved: the verdict depends only on the covered part (`olvm_uncovered_fields_unsigned`,
-  `olvm_signer_pubkey_unread`, `olvm_memo_not_unique`, `olvm_malformed_signature_panics`: the
-  counterexamples, in general form), on the covered part acceptance needs a signature from
-  which the sender is recovered over exactly that part (`olvm_sender_recovered`,
-  `olvm_covered_partial`), and well-formed input never panics (`olvm_never_panics_partial`). -/
+  of the fee — the view `eth`.  Everything else of the envelope is pinned by equality checks:
+  `from` = recovered sender, payload chain id = the one encoded in the signature, payload `type`
+  = 0 and `accessList` = nil, memo = the canonical decimal nonce, the public key of the signature
+  entry has the address `from` (fixes /repo d9b5b70, e1e2119; before them the access list, the
+  type field, leading zeros of the memo and the public key could be altered after signing, and
+  a signature of the wrong length or a missing chain id made the handler panic and the node
+  close itself — scenarios corpus/C04/kf2_*.ops, kf3_*.ops, now refused).
+  Full strength: `olvm_accepted_iff`, `olvm_envelope_determined`, `olvm_covered`,
+  `olvm_never_panics`.  WHAT REMAINS outside these statements, exactly:
+  (a) cryptography — `lib.sender` is a parameter (signature malleability is go-ethereum's
+      business: `Sender` enforces low-s);
+  (b) the public key is pinned through its address only (`olvm_signer_key_through_address`);
+  Former remainder (c) — the verdict was a function of the DECODED payload only, so the payload
+  JSON could be re-spelled after signing — is closed by fix /repo f332fc0 (only the encoding
+  `Marshal` produces is accepted): `olvm_payload_bytes_determined`. -/
 
 section Olvm
-variable {A E X S PK : Type} [DecidableEq A]
-variable (lib : EthLib A E S)
+variable {A E S PK : Type} [DecidableEq A]
+variable (lib : EthLib A E S) (addrOf : PK → Option A)
 
-/-- accepted ⇒ exactly one signature, of 65 bytes, whose recovery byte encodes the payload's chain
-    id and which recovers (over the Ethereum view of nonce, to, value, data, gas, price) to the
-    payload's `from`; and the memo parses to the nonce -/
-theorem olvm_sender_recovered (v : OlvmView A E X) (memo : List Char) (sigs : List (Sig PK S))
-    (h : olvmSig lib v memo sigs = .ok) :
-    ∃ g, sigs = [g] ∧ lib.sigLen g.signed = 65 ∧ v.chainID = some (lib.chainOf g.signed) ∧
-      lib.sender v.eth g.signed = some v.sender ∧ memoIsNonce memo v.nonce = true := by
-  unfold olvmSig at h
-  match sigs, h with
-  | [g], h =>
-    refine ⟨g, rfl, ?_⟩
-    simp only at h
-    by_cases hl : lib.sigLen g.signed = 65
-    · simp only [hl, ne_eq, not_true_eq_false, if_false] at h
-      cases hc : v.chainID with
-      | none => rw [hc] at h; cases h
-      | some c =>
-        rw [hc] at h
-        simp only at h
-        by_cases hk : lib.chainOf g.signed = c
-        · simp only [hk, not_true_eq_false, if_false] at h
-          cases hs : lib.sender v.eth g.signed with
-          | none => rw [hs] at h; cases h
-          | some a =>
-            rw [hs] at h
-            simp only at h
-            by_cases ha : a = v.sender ∧ memoIsNonce memo v.nonce = true
-            · exact ⟨hl, by rw [hk], by rw [ha.1], ha.2⟩
-            · rw [if_neg ha] at h; cases h
-        · rw [if_pos hk] at h; cases h
-    · rw [if_pos hl] at h; cases h
-
-/-- the memo pins the nonce: one memo is never accepted for two different nonces, and the
-    canonical decimal spelling of the nonce is accepted -/
-theorem olvm_memo_pins_nonce (memo : List Char) (n m : Nat)
-    (hn : memoIsNonce memo n = true) (hm : memoIsNonce memo m = true) : n = m := by
-  simp only [memoIsNonce, Bool.and_eq_true, beq_iff_eq] at hn hm
-  omega
+/-- the memo rule is exactly "memo = canonical decimal spelling of the nonce" -/
+theorem olvm_memo_canonical (memo : List Char) (n : Nat) (h : memoIsNonce memo n = true) :
+    memo = natDigits n := by
+  simp only [memoIsNonce, Bool.and_eq_true, decide_eq_true_eq] at h
+  exact h.2
 
 theorem olvm_canonical_memo_accepted (n : Nat) (h : n < 2 ^ 64) : memoIsNonce (natDigits n) n = true := by
   have hne : (natDigits n).isEmpty = false := by
@@ -478,86 +427,243 @@ theorem olvm_canonical_memo_accepted (n : Nat) (h : n < 2 ^ 64) : memoIsNonce (n
   have hall : (natDigits n).all isDig = true := List.all_eq_true.mpr (natDigits_all_dig n)
   simp [memoIsNonce, hne, hall, digitsVal_natDigits, h]
 
-/-- …but not the other way round: leading zeros give further memos for the same nonce, so the
-    memo of a signed OLVM transaction can be respelled without invalidating it (counterexample
-    to "memo changed after signing ⇒ rejected"; replayed by the `sigm` engine, class
-    `memo-leading-zero`) -/
-theorem olvm_memo_not_unique :
-    memoIsNonce "12".toList 12 = true ∧ memoIsNonce "012".toList 12 = true ∧
-    memoIsNonce "0000000000000000000000012".toList 12 = true ∧
-    memoIsNonce "+12".toList 12 = false ∧ memoIsNonce "1_2".toList 12 = false ∧
-    memoIsNonce "".toList 0 = false ∧ memoIsNonce "18446744073709551616".toList 18446744073709551616 = false := by
-  decide
+/-- the memo pins the nonce, and the nonce pins the memo -/
+theorem olvm_memo_pins_nonce (memo : List Char) (n m : Nat)
+    (hn : memoIsNonce memo n = true) (hm : memoIsNonce memo m = true) : n = m := by
+  have a := olvm_memo_canonical memo n hn
+  have b := olvm_memo_canonical memo m hm
+  rw [← digitsVal_natDigits n, ← a, b, digitsVal_natDigits]
 
-/-- counterexample, in general form: the payload fields outside the Ethereum view (`type`,
-    `accessList`) can be replaced after signing without affecting the verdict -/
-theorem olvm_uncovered_fields_unsigned (v : OlvmView A E X) (x' : X) (memo : List Char)
-    (sigs : List (Sig PK S)) :
-    olvmSig lib { v with extra := x' } memo sigs = olvmSig lib v memo sigs := rfl
+theorem olvm_memo_unique (memo memo' : List Char) (n : Nat)
+    (h : memoIsNonce memo n = true) (h' : memoIsNonce memo' n = true) : memo' = memo := by
+  rw [olvm_memo_canonical memo n h, olvm_memo_canonical memo' n h']
 
-/-- …and so can the public key named in the signature entry: only the signature bytes are read -/
-theorem olvm_signer_pubkey_unread {PK' : Type} (v : OlvmView A E X) (memo : List Char) (g : Sig PK S) (pk' : PK') :
-    olvmSig lib v memo [(⟨pk', g.signed⟩ : Sig PK' S)] = olvmSig lib v memo [g] := rfl
+/-- accepted iff: exactly one signature, of 65 bytes, whose recovery byte encodes the payload's
+    chain id, from which the payload's `from` is recovered over the Ethereum view; the named
+    public key has the address `from`; payload `type` = 0, no access list; memo = decimal nonce -/
+theorem olvm_accepted_iff (v : OlvmView A E) (memo : List Char) (sigs : List (Sig PK S)) :
+    olvmSig lib addrOf v memo sigs = .ok ↔
+      ∃ g, sigs = [g] ∧ lib.sigLen g.signed = 65 ∧ v.chainID = some (lib.chainOf g.signed) ∧
+        lib.sender v.eth g.signed = some v.sender ∧ addrOf g.signer = some v.sender ∧
+        v.extra = ⟨0, false⟩ ∧ memoIsNonce memo v.nonce = true := by
+  have hex : ∀ x : OlvmExtra, (x.txType = 0 ∧ x.hasAccessList = false) ↔ x = ⟨0, false⟩ := by
+    intro x; cases x; simp
+  constructor
+  · intro h
+    unfold olvmSig at h
+    match sigs, h with
+    | [g], h =>
+      refine ⟨g, rfl, ?_⟩
+      simp only at h
+      cases hc : v.chainID with
+      | none => rw [hc] at h; cases h
+      | some c =>
+        rw [hc] at h
+        simp only at h
+        by_cases hl : lib.sigLen g.signed = 65
+        · rw [if_neg (fun hn => hn hl)] at h
+          by_cases hk : lib.chainOf g.signed = c
+          · rw [if_neg (fun hn => hn hk)] at h
+            cases hs : lib.sender v.eth g.signed with
+            | none => rw [hs] at h; cases h
+            | some a =>
+              rw [hs] at h
+              simp only at h
+              split at h
+              · next hh =>
+                obtain ⟨h1, h2, h3, h4, h5⟩ := hh
+                exact ⟨hl, by rw [hk], by rw [h1], h2, (hex _).mp ⟨h3, h4⟩, h5⟩
+              · cases h
+          · rw [if_pos hk] at h; cases h
+        · rw [if_pos hl] at h; cases h
+  · rintro ⟨g, rfl, hl, hc, hs, ha, he, hm⟩
+    have he' := (hex _).mpr he
+    simp [olvmSig, hc, hl, hs, ha, he'.1, he'.2, hm]
 
-/-- on the covered part: a changed Ethereum view is accepted only with a signature from which
-    the sender is recovered over the CHANGED view -/
-theorem olvm_covered_partial (v : OlvmView A E X) (eth' : E) (memo : List Char) (g : Sig PK S)
-    (h : olvmSig lib { v with eth := eth' } memo [g] = .ok) :
+/-- (kept name) the → direction on its own -/
+theorem olvm_sender_recovered (v : OlvmView A E) (memo : List Char) (sigs : List (Sig PK S))
+    (h : olvmSig lib addrOf v memo sigs = .ok) :
+    ∃ g, sigs = [g] ∧ lib.sigLen g.signed = 65 ∧ v.chainID = some (lib.chainOf g.signed) ∧
+      lib.sender v.eth g.signed = some v.sender ∧ memoIsNonce memo v.nonce = true := by
+  obtain ⟨g, a, b, c, d, _, _, f⟩ := (olvm_accepted_iff lib addrOf v memo sigs).mp h
+  exact ⟨g, a, b, c, d, f⟩
+
+/-- FULL STATEMENT for everything outside the Ethereum view: the signature bytes, the Ethereum
+    view and the nonce determine the whole accepted envelope — sender, chain id, type and access
+    list, memo, and the address of the named public key.  (So after signing nothing of it can be
+    changed; formerly false: `olvm_uncovered_fields_unsigned`, `olvm_memo_not_unique`,
+    `olvm_signer_pubkey_unread`.) -/
+theorem olvm_envelope_determined (v v' : OlvmView A E) (memo memo' : List Char) (g g' : Sig PK S)
+    (h : olvmSig lib addrOf v memo [g] = .ok) (h' : olvmSig lib addrOf v' memo' [g'] = .ok)
+    (hsig : g'.signed = g.signed) (heth : v'.eth = v.eth) (hn : v'.nonce = v.nonce) :
+    v' = v ∧ memo' = memo ∧ addrOf g'.signer = addrOf g.signer := by
+  obtain ⟨x, hx, _, c1, s1, a1, e1, m1⟩ := (olvm_accepted_iff lib addrOf v memo [g]).mp h
+  obtain ⟨y, hy, _, c2, s2, a2, e2, m2⟩ := (olvm_accepted_iff lib addrOf v' memo' [g']).mp h'
+  cases hx; cases hy
+  rw [hsig] at c2 s2
+  rw [heth] at s2
+  have hsender : v'.sender = v.sender := by
+    rw [s1] at s2; exact (Option.some.inj s2).symm
+  refine ⟨?_, ?_, ?_⟩
+  · cases v; cases v'
+    simp only at hn heth hsender c1 c2 e1 e2
+    simp [hn, heth, hsender, c1, c2, e1, e2]
+  · rw [hn] at m2
+    exact olvm_memo_unique memo memo' v.nonce m1 m2
+  · rw [a1, a2, hsender]
+
+/-- FULL STATEMENT for the Ethereum view (nonce, to, value, data, gas, price): a changed view is
+    accepted only with a signature from which the sender is recovered over the CHANGED view
+    (formerly `olvm_covered_partial`, partial only because the statement above was false) -/
+theorem olvm_covered (v : OlvmView A E) (eth' : E) (memo : List Char) (g : Sig PK S)
+    (h : olvmSig lib addrOf { v with eth := eth' } memo [g] = .ok) :
     lib.sender eth' g.signed = some v.sender := by
-  obtain ⟨g', hg, _, _, hr, _⟩ := olvm_sender_recovered lib { v with eth := eth' } memo [g] h
+  obtain ⟨g', hg, _, _, hr, _⟩ := olvm_sender_recovered lib addrOf { v with eth := eth' } memo [g] h
   cases hg
   exact hr
 
-/-- counterexamples to "altered signature bytes / payload ⇒ rejected without effect": a single
-    signature whose length is not 65 bytes, or a payload without chain id, is not rejected — the
-    handler panics, and `handlePanic` closes the application (replayed by the `sigm` engine,
-    classes `sig-truncated`, `sig-empty`, `payload-chainid-null`) -/
-theorem olvm_malformed_signature_panics (v : OlvmView A E X) (memo : List Char) (g : Sig PK S)
-    (h : lib.sigLen g.signed ≠ 65) : olvmSig lib v memo [g] = .panic := by
-  simp [olvmSig, h]
-
-theorem olvm_missing_chainid_panics (v : OlvmView A E X) (memo : List Char) (g : Sig PK S)
-    (h : lib.sigLen g.signed = 65) (hc : v.chainID = none) : olvmSig lib v memo [g] = .panic := by
-  simp [olvmSig, h, hc]
-
-/-- the `_partial` form of rejection: with a 65-byte signature and a chain id present the
-    verdict is never a panic, and anything but exactly one signature is rejected -/
-theorem olvm_never_panics_partial (v : OlvmView A E X) (memo : List Char) (sigs : List (Sig PK S))
-    (hlen : ∀ g ∈ sigs, lib.sigLen g.signed = 65) (hc : v.chainID ≠ none) :
-    olvmSig lib v memo sigs ≠ .panic := by
+/-- FULL STATEMENT (formerly `olvm_never_panics_partial` under "65 bytes and chain id present"):
+    no input makes the handler panic -/
+theorem olvm_never_panics (v : OlvmView A E) (memo : List Char) (sigs : List (Sig PK S)) :
+    olvmSig lib addrOf v memo sigs ≠ .panic := by
   unfold olvmSig
-  match sigs, hlen with
-  | [], _ => simp
-  | [g], hlen =>
-    have hl := hlen g (by simp)
-    cases hcc : v.chainID with
-    | none => exact absurd hcc hc
+  match sigs with
+  | [] => simp
+  | [g] =>
+    simp only
+    cases v.chainID with
+    | none => simp
     | some c =>
-      simp only [hl, ne_eq, not_true_eq_false, if_false]
+      simp only
       split
       · simp
       · split
         · simp
-        · split <;> simp
-  | _ :: _ :: _, _ => simp
+        · split
+          · simp
+          · split <;> simp
+  | _ :: _ :: _ => simp
+
+/-- regressions of the repaired defects, in general form -/
+theorem olvm_malformed_signature_rejected (v : OlvmView A E) (memo : List Char) (g : Sig PK S)
+    (h : lib.sigLen g.signed ≠ 65) : olvmSig lib addrOf v memo [g] = .reject := by
+  unfold olvmSig
+  cases v.chainID <;> simp [h]
+
+theorem olvm_missing_chainid_rejected (v : OlvmView A E) (memo : List Char) (sigs : List (Sig PK S))
+    (hc : v.chainID = none) : olvmSig lib addrOf v memo sigs = .reject := by
+  unfold olvmSig
+  match sigs with
+  | [] => rfl
+  | [g] => simp [hc]
+  | _ :: _ :: _ => rfl
+
+theorem olvm_foreign_envelope_rejected (v : OlvmView A E) (memo : List Char) (sigs : List (Sig PK S))
+    (h : v.extra ≠ ⟨0, false⟩) : olvmSig lib addrOf v memo sigs ≠ .ok := by
+  intro hok
+  obtain ⟨_, _, _, _, _, _, e, _⟩ := (olvm_accepted_iff lib addrOf v memo sigs).mp hok
+  exact h e
+
+theorem olvm_foreign_signer_key_rejected (v : OlvmView A E) (memo : List Char) (g : Sig PK S)
+    (h : addrOf g.signer ≠ some v.sender) : olvmSig lib addrOf v memo [g] ≠ .ok := by
+  intro hok
+  obtain ⟨g', hg, _, _, _, a, _, _⟩ := (olvm_accepted_iff lib addrOf v memo [g]).mp hok
+  cases hg
+  exact h a
+
+/-- remainder (b): the named public key enters through its address only -/
+theorem olvm_signer_key_through_address {PK' : Type} (addrOf' : PK' → Option A) (v : OlvmView A E)
+    (memo : List Char) (g : Sig PK S) (pk' : PK') (h : addrOf' pk' = addrOf g.signer) :
+    olvmSig lib addrOf' v memo [(⟨pk', g.signed⟩ : Sig PK' S)] = olvmSig lib addrOf v memo [g] := by
+  simp only [olvmSig, h]
+
+/-- from the payload bytes: accepted iff they decode, are the canonical encoding of what they
+    decode to, and the decoded envelope is accepted -/
+theorem olvmValidate_ok_iff {B : Type} [DecidableEq B] (decode : B → Option (OlvmView A E))
+    (encode : OlvmView A E → B) (d : B) (memo : List Char) (sigs : List (Sig PK S)) :
+    olvmValidate lib addrOf decode encode d memo sigs = .ok ↔
+      ∃ v, decode d = some v ∧ encode v = d ∧ olvmSig lib addrOf v memo sigs = .ok := by
+  unfold olvmValidate
+  cases h : decode d with
+  | none => simp
+  | some v =>
+    by_cases he : encode v = d
+    · simp [he]
+    · simp [he]
+
+/-- FULL STATEMENT for the payload bytes (formerly false: `decode` = json.Unmarshal tolerates
+    spacing, key order and unknown keys): two accepted payloads that decode to the same value are
+    the same bytes, so together with `olvm_envelope_determined` the signature bytes, the Ethereum
+    view and the nonce determine the accepted payload byte for byte -/
+theorem olvm_payload_bytes_determined {B : Type} [DecidableEq B] (decode : B → Option (OlvmView A E))
+    (encode : OlvmView A E → B) (d d' : B) (memo memo' : List Char) (sigs sigs' : List (Sig PK S))
+    (h : olvmValidate lib addrOf decode encode d memo sigs = .ok)
+    (h' : olvmValidate lib addrOf decode encode d' memo' sigs' = .ok)
+    (hv : decode d' = decode d) : d' = d := by
+  obtain ⟨v, hd, he, _⟩ := (olvmValidate_ok_iff lib addrOf decode encode d memo sigs).mp h
+  obtain ⟨v', hd', he', _⟩ := (olvmValidate_ok_iff lib addrOf decode encode d' memo' sigs').mp h'
+  rw [hv, hd] at hd'
+  cases hd'
+  rw [← he, ← he']
+
+theorem olvmValidate_never_panics {B : Type} [DecidableEq B] (decode : B → Option (OlvmView A E))
+    (encode : OlvmView A E → B) (d : B) (memo : List Char) (sigs : List (Sig PK S)) :
+    olvmValidate lib addrOf decode encode d memo sigs ≠ .panic := by
+  unfold olvmValidate
+  cases decode d with
+  | none => simp
+  | some v =>
+    simp only
+    split
+    · simp
+    · exact olvm_never_panics lib addrOf v memo sigs
 
 end Olvm
 
-/-- toy library: the "signature" is (length, chain id, sender, eth view it was made over) -/
+/-- toy library: the "signature" is (length, chain id, sender, eth view it was made over);
+    a public key is its own address -/
 def exLib : EthLib Nat Nat (Nat × Int × Nat × Nat) :=
   { sigLen := fun s => s.1, chainOf := fun s => s.2.1,
     sender := fun eth s => if s.2.2.2 = eth then some s.2.2.1 else none }
-def exView : OlvmView Nat Nat Nat := { nonce := 12, sender := 7, chainID := some 1, eth := 99, extra := 0 }
-def exSig : Sig Nat (Nat × Int × Nat × Nat) := ⟨0, (65, 1, 7, 99)⟩
+def exKeyAddr : Nat → Option Nat := fun pk => if pk = 0 then none else some pk
+def exView : OlvmView Nat Nat := { nonce := 12, sender := 7, chainID := some 1, eth := 99, extra := ⟨0, false⟩ }
+def exSig : Sig Nat (Nat × Int × Nat × Nat) := ⟨7, (65, 1, 7, 99)⟩
+/-- the memo of nonce 12 -/
+abbrev memo12 : List Char := natDigits 12
 
-example : olvmSig exLib exView "12".toList [exSig] = .ok := by decide
-example : olvmSig exLib { exView with extra := 5 } "012".toList [exSig] = .ok := by decide
-example : olvmSig exLib { exView with eth := 98 } "12".toList [exSig] = .reject := by decide
-example : olvmSig exLib exView "13".toList [exSig] = .reject := by decide
-example : olvmSig exLib { exView with sender := 8 } "12".toList [exSig] = .reject := by decide
-example : olvmSig exLib { exView with chainID := some 2 } "12".toList [exSig] = .reject := by decide
-example : olvmSig exLib exView "12".toList [exSig, exSig] = .reject := by decide
-example : olvmSig exLib exView "12".toList [(⟨0, (64, 1, 7, 99)⟩ : Sig Nat (Nat × Int × Nat × Nat))] = .panic := by decide
-example : olvmSig exLib { exView with chainID := none } "12".toList [exSig] = .panic := by decide
+example : olvmSig exLib exKeyAddr exView memo12 [exSig] = .ok :=
+  (olvm_accepted_iff exLib exKeyAddr exView memo12 [exSig]).mpr
+    ⟨exSig, rfl, rfl, rfl, rfl, rfl, rfl, olvm_canonical_memo_accepted 12 (by decide)⟩
+-- regressions of the former counterexamples: every one is refused now
+example : olvmSig exLib exKeyAddr { exView with extra := ⟨0, true⟩ } memo12 [exSig] ≠ .ok :=
+  olvm_foreign_envelope_rejected _ _ _ _ _ (by decide)
+example : olvmSig exLib exKeyAddr { exView with extra := ⟨2, false⟩ } memo12 [exSig] ≠ .ok :=
+  olvm_foreign_envelope_rejected _ _ _ _ _ (by decide)
+example : olvmSig exLib exKeyAddr exView memo12 [(⟨8, exSig.signed⟩ : Sig Nat _)] ≠ .ok :=
+  olvm_foreign_signer_key_rejected _ _ _ _ _ (by decide)
+example : memoIsNonce "012".toList 12 = false := by
+  cases h : memoIsNonce "012".toList 12 with
+  | false => rfl
+  | true =>
+    have := olvm_memo_canonical _ _ h
+    have e : natDigits 12 = "12".toList := by simp [natDigits, digitChar]
+    rw [e] at this
+    revert this; decide
+example : olvmSig exLib exKeyAddr exView memo12 [(⟨7, (64, 1, 7, 99)⟩ : Sig Nat (Nat × Int × Nat × Nat))] = .reject :=
+  olvm_malformed_signature_rejected _ _ _ _ _ (by decide)
+example : olvmSig exLib exKeyAddr { exView with chainID := none } memo12 [exSig] = .reject :=
+  olvm_missing_chainid_rejected _ _ _ _ _ rfl
+example : olvmSig exLib exKeyAddr { exView with eth := 98 } memo12 [exSig] = .reject := by decide
+example : olvmSig exLib exKeyAddr { exView with sender := 8 } memo12 [exSig] = .reject := by decide
+example : olvmSig exLib exKeyAddr { exView with chainID := some 2 } memo12 [exSig] = .reject := by decide
+example : olvmSig exLib exKeyAddr exView memo12 [exSig, exSig] = .reject := by decide
+-- payload bytes as numbers: 5 is the canonical encoding of `exView`, 6 another spelling of it
+example : olvmValidate exLib exKeyAddr (fun d => if d = 5 ∨ d = 6 then some exView else none) (fun _ => 5)
+    6 memo12 [exSig] = .reject := by decide
+example : olvmValidate exLib exKeyAddr (fun d => if d = 5 ∨ d = 6 then some exView else none) (fun _ => 5)
+    5 memo12 [exSig] = .ok :=
+  (olvmValidate_ok_iff _ _ _ _ _ _ _).mpr ⟨exView, by simp, rfl,
+    (olvm_accepted_iff exLib exKeyAddr exView memo12 [exSig]).mpr
+      ⟨exSig, rfl, rfl, rfl, rfl, rfl, rfl, olvm_canonical_memo_accepted 12 (by decide)⟩⟩
 
 end OLP.Props.C04
